@@ -296,21 +296,24 @@ def _result_used(fn, call):
 
 
 def _some_arm_entry(soa):
-    """Entry block of the `Some(expected_annotations)` arm of set_or_assert."""
-    from .guards import bool_condition, switch_edges
+    """Entry block of the `Some(expected_annotations)` arm of set_or_assert: the switch on the stored annotations whose
+    Some edge leads to the merge tests and whose None edge (first visit: the annotations are stored) does not."""
+    from .guards import bool_condition, succ_for_value
+    r = check_guard(soa, Cmp("ne", "f:function_id", "f:function_id"), bypass="none")
+    if not r.ok:
+        return None
+    best = None
     for bb, t in soa.switches():
         info, _ = bool_condition(soa, bb)
         if info and info[0] == "disc" and info[2] == "core::option::Option":
             toks = prov(soa, place_local(info[1]))
             if "c:get" in toks or "f:per_statement_annotations" in toks:
-                # the inner Option<StatementAnnotations> (after `?`): variant 1 = Some
-                from .guards import succ_for_value
-                s = succ_for_value(soa, bb, 1)
-                # make sure this is the arm that reaches the function_id test
-                r = check_guard(soa, Cmp("ne", "f:function_id", "f:function_id"), bypass="none")
-                if r.ok and r.site in soa.reachable_blocks(s):
-                    return s
-    return None
+                some_s = succ_for_value(soa, bb, 1)
+                none_s = succ_for_value(soa, bb, 0)
+                if r.site in (soa.reachable_blocks(some_s) | {some_s}) and r.site not in (soa.reachable_blocks(none_s) | {none_s}):
+                    if best is None or soa.dominates(best[0], bb):
+                        best = (bb, some_s)
+    return best[1] if best else None
 
 
 def _controlling_tokens(fn, blocks):
